@@ -11,6 +11,7 @@ import Pygom.OpsLoss
 import Pygom.OpsCanary
 import Pygom.OpsEst
 import Pygom.OpsCtmc
+import Pygom.OpsSeed
 
 namespace Pygom
 open Lean (Json)
@@ -25,6 +26,7 @@ def handlers : List (String → Json → Option (Except String Json)) :=
   , handleCanary
   , handleEst
   , handleCtmc
+  , handleSeed
   ]
 
 def handle (j : Json) : Json :=
